@@ -71,28 +71,32 @@ structure CycleSt where
   deriving Repr, DecidableEq, Inhabited
 
 /-- The inner loop `for dep := range directFragmentDependencies[toVisit[i]]` over the dependencies in
-    the given order; `break` when the start is met. -/
-def cycleInner (name : String) : List String → CycleSt → CycleSt
+    the given order; `break` when the start is met. With `brk = false` the loops run on after the start
+    was met: that run visits every fragment reachable from the start once, whatever the order, and
+    therefore does at least the work of every run with the `break` (used as the order-independent upper
+    count for fragments that lie on a cycle). -/
+def cycleInner (brk : Bool) (name : String) : List String → CycleSt → CycleSt
   | [], st => st
   | dep :: rest, st =>
     let st := { st with inner := st.inner + 1 }
-    if st.encountered.contains dep then cycleInner name rest st
-    else if dep == name then { st with found := true }
-    else cycleInner name rest { st with pending := st.pending ++ [dep], encountered := dep :: st.encountered }
+    if st.encountered.contains dep then cycleInner brk name rest st
+    else if dep == name then
+      if brk then { st with found := true } else cycleInner brk name rest { st with found := true }
+    else cycleInner brk name rest { st with pending := st.pending ++ [dep], encountered := dep :: st.encountered }
 
 /-- The outer loop `for i := 0; i < len(toVisit) && !cycleFound; i++`. `none` = model fuel exhausted. -/
-def cycleOuter (deps : String → List String) (name : String) : Nat → CycleSt → Option CycleSt
+def cycleOuter (brk : Bool) (deps : String → List String) (name : String) : Nat → CycleSt → Option CycleSt
   | 0, _ => none
   | f + 1, st =>
     match st.pending with
     | [] => some st
     | v :: rest =>
-      if st.found then some st
-      else cycleOuter deps name f (cycleInner name (deps v) { st with pending := rest, outer := st.outer + 1 })
+      if brk && st.found then some st
+      else cycleOuter brk deps name f (cycleInner brk name (deps v) { st with pending := rest, outer := st.outer + 1 })
 
 /-- The search started from one fragment name. -/
-def cycleFrom (deps : String → List String) (name : String) (fuel : Nat) : Option CycleSt :=
-  cycleOuter deps name fuel { pending := [name], encountered := [], found := false, outer := 0, inner := 0 }
+def cycleFrom (brk : Bool) (deps : String → List String) (name : String) (fuel : Nat) : Option CycleSt :=
+  cycleOuter brk deps name fuel { pending := [name], encountered := [], found := false, outer := 0, inner := 0 }
 
 /-- `directFragmentDependencies[name]` in document order: the distinct spread names of the last
     definition of `name` (nothing for an undefined name). -/
@@ -108,10 +112,10 @@ structure CycleTotals where
   cycles : Nat          -- fragments reported as "fragment cycle detected"
   deriving Repr, DecidableEq, Inhabited
 
-def cycleAll (deps : String → List String) (fuel : Nat) : List String → Option CycleTotals
+def cycleAll (brk : Bool) (deps : String → List String) (fuel : Nat) : List String → Option CycleTotals
   | [] => some { outer := 0, inner := 0, cycles := 0 }
   | n :: ns =>
-    match cycleFrom deps n fuel, cycleAll deps fuel ns with
+    match cycleFrom brk deps n fuel, cycleAll brk deps fuel ns with
     | some st, some t =>
       some { outer := st.outer + t.outer, inner := st.inner + t.inner, cycles := t.cycles + (if st.found then 1 else 0) }
     | _, _ => none
@@ -120,9 +124,9 @@ def cycleAll (deps : String → List String) (fuel : Nat) : List String → Opti
 def cycleFuel (fs : List (String × SelSet × List Directive)) : Nat :=
   ((fs.map (fun p => (spreadsSet p.2.1).length)).sum) + 2
 
-def cycleSearch (d : Document) : Option CycleTotals :=
+def cycleSearch (brk : Bool) (d : Document) : Option CycleTotals :=
   let fs := fragDefs d.defs
-  cycleAll (depsOf fs) (cycleFuel fs) (dedup (fs.map (·.1)))
+  cycleAll brk (depsOf fs) (cycleFuel fs) (dedup (fs.map (·.1)))
 
 /-! ### (b) The variable walk -/
 
